@@ -34,3 +34,87 @@ package handler
 //@   ensures[C17:sorted] forall(i int, j int, 0 <= i && i <= j && j < len(result) ==> strLE(result[i], result[j]))
 //@   loop 1 invariant ptr(all) == 0 || isnew(ptr(all))
 //@   loop 2 invariant ptr(all) == 0 || isnew(ptr(all))
+
+// ---------------------------------------------------------------------------
+// Args and Obj (C16): positional and keyed decoding are exact
+// ---------------------------------------------------------------------------
+
+// Args: a JSON array of exactly len(a) elements, element i decoded into a[i]
+// (nil slots skipped); on a length mismatch nothing is decoded. The decode
+// targets must not include the argument list's own backing store or the text.
+//@ func (Args).UnmarshalJSON
+//@   requires forall(i int, 0 <= i && i < len(a) ==> ival(a[i]) != ptr(a) && ival(a[i]) != ptr(data))
+//@   modifies jsonDecodes, jsonSource, pointees(a)
+//@   ensures[C16:exact-length] result == nil ==> (jsonIsNull(str(data)) && len(a) == 0) || (jsonIsArray(str(data)) && jsonArrayLen(str(data)) == len(a))
+//@   ensures[C16:mismatch-decodes-nothing] jsonIsArray(str(data)) && jsonArrayLen(str(data)) != len(a) ==> result != nil && forall(i int, 0 <= i && i < len(a) ==> jsonDecodes(a[i]) == old(jsonDecodes(a[i])))
+//@   ensures[C16:every-slot-decoded] result == nil ==> forall(i int, 0 <= i && i < len(a) && a[i] != nil ==> jsonDecodes(a[i]) > old(jsonDecodes(a[i])))
+//@   at call.Unmarshal#2 assert[C16:element-i-into-slot-i] arg1 == a[i] && arg1 != nil && str(arg0) == jsonElem(str(data), i)
+//@   loop 1 invariant len(elts) == len(a)
+//@   loop 1 invariant (jsonIsNull(str(data)) && len(a) == 0) || (jsonIsArray(str(data)) && jsonArrayLen(str(data)) == len(a))
+//@   loop 1 invariant len(a) > 0 ==> isnew(ptr(elts))
+//@   loop 1 invariant forall(i int, 0 <= i && i < len(elts) ==> str(elts[i]) == jsonElem(str(data), i) && isnew(ptr(elts[i])))
+//@   loop 1 invariant forall(x Iface, jsonDecodes(x) >= old(jsonDecodes(x)))
+//@   loop 1 invariant forall(j int, 0 <= j && j <= rangeindex && a[j] != nil ==> jsonDecodes(a[j]) > old(jsonDecodes(a[j])))
+
+// Obj: a JSON object; only keys present in both the object and the map are
+// decoded, each into the target filed under that key; no other target is
+// touched. The targets must not include the text being decoded.
+//@ func (Obj).UnmarshalJSON
+//@   requires forall(k string, in(o, k) ==> ival(lookup(o, k)) != ptr(data) && ival(lookup(o, k)) != o)
+//@   modifies jsonDecodes, jsonSource, pointees(o)
+//@   ensures[C16:object-only] result == nil ==> jsonIsNull(str(data)) || jsonIsObject(str(data))
+//@   ensures[C16:touches-no-other-target] forall(x Iface, !isnew(ival(x)) && forall(k string, in(o, k) && jsonHasKey(str(data), k) ==> lookup(o, k) != x) ==> jsonDecodes(x) == old(jsonDecodes(x)))
+//@   at call.Unmarshal#2 assert[C16:key-into-its-target] in(o, key) && arg1 == lookup(o, key) && jsonHasKey(str(data), key) && str(arg0) == jsonMember(str(data), key)
+//@   loop 1 invariant (jsonIsNull(str(data)) && base == nil) || (jsonIsObject(str(data)) && base != nil && isnew(base))
+//@   loop 1 invariant base != nil ==> forall(k string, in(base, k) == jsonHasKey(str(data), k) && (jsonHasKey(str(data), k) ==> str(lookup(base, k)) == jsonMember(str(data), k) && isnew(ptr(lookup(base, k)))))
+//@   loop 1 invariant forall(x Iface, !isnew(ival(x)) && forall(k string, in(o, k) && jsonHasKey(str(data), k) ==> lookup(o, k) != x) ==> jsonDecodes(x) == old(jsonDecodes(x)))
+
+// arrayStub.translate: anything but an array passes through untouched; an
+// array must have exactly one element per positional name and is rewritten to
+// an object that binds EVERY name - element i under name i, null included.
+//@ func (*arrayStub).translate
+//@   requires s != nil
+//@   modifies jsonDecodes, jsonSource
+//@   ensures[C16:non-array-untouched] !called("call.Unmarshal#1") ==> result0 == data && result1 == nil
+//@   ensures[C16:wrong-length-rejected] called("call.Unmarshal#1") && jsonIsArray(str(data)) && jsonArrayLen(str(data)) != len(s.posNames) ==> result1 != nil && result0 == nil
+//@   ensures[C16:error-no-text] result1 != nil ==> result0 == nil
+//@   at call.Marshal#1 assert[C16:every-name-bound] forall(i int, 0 <= i && i < len(s.posNames) ==> in(obj, s.posNames[i]))
+//@   at call.Marshal#1 assert[C16:element-i-under-name-i] forall(i int, 0 <= i && i < len(s.posNames) && forall(j int, i < j && j < len(s.posNames) ==> s.posNames[j] != s.posNames[i]) ==> str(lookup(obj, s.posNames[i])) == jsonElem(str(data), i))
+//@   at call.Marshal#1 assert[C16:only-names-bound] forall(k string, in(obj, k) ==> exists(i int, 0 <= i && i < len(s.posNames) && s.posNames[i] == k))
+//@   loop 1 invariant len(arr) == len(s.posNames) && (jsonIsArray(str(data)) || len(arr) == 0) && obj != nil && isnew(obj) && (len(arr) > 0 ==> isnew(ptr(arr)))
+//@   loop 1 invariant forall(i int, 0 <= i && i < len(arr) ==> str(arr[i]) == jsonElem(str(data), i))
+//@   loop 1 invariant forall(i int, 0 <= i && i <= rangeindex ==> in(obj, s.posNames[i]))
+//@   loop 1 invariant forall(i int, 0 <= i && i <= rangeindex && forall(j int, i < j && j <= rangeindex ==> s.posNames[j] != s.posNames[i]) ==> lookup(obj, s.posNames[i]) == arr[i])
+//@   loop 1 invariant forall(k string, in(obj, k) ==> exists(i int, 0 <= i && i <= rangeindex && s.posNames[i] == k))
+
+// ---------------------------------------------------------------------------
+// Decoder stubs (C15): what is decoded, into what, and how strictly
+// ---------------------------------------------------------------------------
+
+// arrayStub: a translation failure is returned without decoding anything;
+// otherwise exactly the translated text is decoded, once, into s.v.
+//@ func (*arrayStub).UnmarshalJSON
+//@   requires s != nil
+//@   modifies jsonDecodes, jsonSource, pointee(s.v)
+//@   ensures[C15:translate-error-no-decode] callres("call.translate#1", 1, "error") != nil ==> result == callres("call.translate#1", 1, "error") && !called("call.Unmarshal#1")
+//@   ensures[C15:one-decode] callres("call.translate#1", 1, "error") == nil ==> called("call.Unmarshal#1") && result == callres("call.Unmarshal#1", 0, "error")
+//@   at call.Unmarshal#1 assert[C15:decodes-translated-into-target] arg1 == s.v && arg0 == callres("call.translate#1", 0, "bytes")
+
+// strictStub: the one decode is made with unknown fields disallowed.
+//@ func (*strictStub).UnmarshalJSON
+//@   requires s != nil
+//@   at call.Decode#1 assert[C15:strict-before-decode] called("call.DisallowUnknownFields#1") && arg1 == s.v
+//@   ensures[C15:one-decode] called("call.Decode#1") && result == callres("call.Decode#1", 0, "error")
+
+// argWrapper: strict and array support compose - the array stub wraps the
+// strict stub, so a rewritten array is decoded strictly too.
+//@ func (*FuncInfo).argWrapper$1
+//@   fresh result
+//@   ensures[C15:array-over-strict] typeis(result, "*handler.arrayStub") && unboxas(result, "*handler.arrayStub") != nil && typeis(unboxas(result, "*handler.arrayStub").v, "*handler.strictStub") && unboxas(unboxas(result, "*handler.arrayStub").v, "*handler.strictStub") != nil
+//@   ensures[C15:target-kept] unboxas(unboxas(result, "*handler.arrayStub").v, "*handler.strictStub").v == callres("call.Interface#1", 0, "any") && unboxas(result, "*handler.arrayStub").posNames == names
+//@ func (*FuncInfo).argWrapper$2
+//@   fresh result
+//@   ensures[C15:strict-only] typeis(result, "*handler.strictStub") && unboxas(result, "*handler.strictStub") != nil && unboxas(result, "*handler.strictStub").v == callres("call.Interface#1", 0, "any")
+//@ func (*FuncInfo).argWrapper$3
+//@   fresh result
+//@   ensures[C15:array-only] typeis(result, "*handler.arrayStub") && unboxas(result, "*handler.arrayStub") != nil && unboxas(result, "*handler.arrayStub").v == callres("call.Interface#1", 0, "any") && unboxas(result, "*handler.arrayStub").posNames == names
